@@ -171,14 +171,17 @@ impl Cache for MemoryStore {
         if header.time_to_live > 0 {
             // never prolong an item: rewrite its ttl only if the flush deadline comes
             // before the item's own expiry
-            let deadline = self.timer.timestamp() + header.time_to_live as u64;
+            let now = self.timer.timestamp();
+            let deadline = now + header.time_to_live as u64;
             self.memory.alter_all(|_key, mut value| {
                 let expires_at = match value.header.time_to_live {
                     0 => u64::MAX,
                     ttl => value.header.timestamp + ttl as u64,
                 };
                 if deadline < expires_at {
-                    value.header.time_to_live = (deadline - value.header.timestamp) as u32;
+                    // expire exactly at the deadline: now + delay
+                    value.header.timestamp = now;
+                    value.header.time_to_live = header.time_to_live;
                 }
                 value
             });
